@@ -137,13 +137,17 @@ func main() {
 		workerMain()
 		return
 	}
+	if *child == "cold" {
+		coldChildMain()
+		return
+	}
 	rng := vh.NewRng(env.Seed)
 	connLimit = 1 << 16
 	if env.Thorough {
 		connLimit = 1 << 20
 	}
 	rep.Rule = "a case is one generated value tree (all 20 implemented type codes, depth<=6 quick / 12 thorough, boundary-biased scalars, " +
-		"wide and hash-colliding maps; 60% of the values are built on the Go side through a random mutation history: junk+Clear rounds over the same / bucket-0 / colliding keys, placeholder+overwrite, PutString/PutLong/NewList, PutAll, Add/Set) plus 0-3 trailing bytes, decoded from a byte slice and from a net.Conn-backed input; in a child process: a decode history over strings with equal 32-bit hashes, valid decodes after thousands of failed ones, 12 goroutines at once; non-trivial = its encoding is longer than one byte; distinct by one-line form"
+		"wide and hash-colliding maps; 60% of the values are built on the Go side through a random mutation history: junk+Clear rounds over the same / bucket-0 / colliding keys, placeholder+overwrite, PutString/PutLong/NewList, PutAll, Add/Set) plus 0-3 trailing bytes, decoded from a byte slice and from a net.Conn-backed input; in a child process: a decode history over strings with equal 32-bit hashes, valid decodes after thousands of failed ones, 12 goroutines at once; in hundreds of FRESH processes: 1-32 goroutines making the first library calls of the process at the same moment; non-trivial = its encoding is longer than one byte; distinct by one-line form"
 
 	var cases []*tcase
 	var flush0 func()
@@ -484,7 +488,7 @@ func main() {
 	}
 
 	var reSpecs []reSpec
-	var childSeeds []uint64
+	var childSeeds, coldSeeds, apiSeeds []uint64
 	if env.Replay != "" {
 		b, err := os.ReadFile(env.Replay)
 		if err != nil {
@@ -508,6 +512,14 @@ func main() {
 		for _, rc := range rf.Cases {
 			if rc.Stage == "history" {
 				childSeeds = append(childSeeds, rc.Seed)
+				continue
+			}
+			if rc.Stage == "cold" {
+				coldSeeds = append(coldSeeds, rc.Seed)
+				continue
+			}
+			if rc.Stage == "api" {
+				apiSeeds = append(apiSeeds, rc.Seed)
 				continue
 			}
 			if rc.Value == "" {
@@ -663,6 +675,22 @@ func main() {
 	}
 	if env.Replay == "" {
 		childSeeds = []uint64{env.Seed}
+		coldSeeds = []uint64{env.Seed}
+		apiSeeds = []uint64{env.Seed}
+	}
+	doneAPI := map[uint64]bool{}
+	for _, as := range apiSeeds {
+		if !doneAPI[as] {
+			doneAPI[as] = true
+			totalLines += apiStage(env, rep, as)
+		}
+	}
+	doneCold := map[uint64]bool{}
+	for _, cs := range coldSeeds {
+		if !doneCold[cs] {
+			doneCold[cs] = true
+			coldStage(env, rep, cs)
+		}
 	}
 	done := map[uint64]bool{}
 	for _, cs := range childSeeds {
